@@ -25,6 +25,7 @@ type feedOpts struct {
 	onlyValidBases       bool
 	noDepthSites         bool
 	depthSitesLite       bool // a 16-document subset (for expensive per-input checks)
+	alignment            bool // runs of every token class at every length 0..40 x special byte x tail length (word-at-a-time scanners)
 }
 
 var defaultNestDepths = []int{1, 2, 3, 5, 17, 64, 9998, 9999, 10000, 10001, 10002, 20000}
@@ -90,6 +91,71 @@ func (e *env) feed(o feedOpts, f inputFn) {
 				if err := call("truncate", v[:cut]); err != nil {
 					report("truncate", v[:cut], err)
 					break outer
+				}
+			}
+		}
+	}
+
+	// 2b. alignment: word-at-a-time scanners fail at particular offsets modulo 8 and particular
+	// distances from the end of the input, so every run length 0..40 of every token class is
+	// combined with a special byte and every tail length 0..12, inside and outside containers
+	if o.alignment && e.enumStage("alignment", "runs of length 0..40 of {string bytes, integer digits, fraction digits, exponent digits, whitespace} x 14 special bytes/escapes after the run x tails of length 0..12 x 4 contexts", true) {
+		specials := []string{"", `\"`, `\\`, `\n`, `\u00e9`, "\x1f", "\x00", ":", ";", "?", "\x7f", "\xff", "e", "."}
+		ctxs := [][2]string{{"", ""}, {"[", "]"}, {`{"k":`, "}"}, {`[1,{"a":[`, `]}]`}}
+		buf := make([]byte, 0, 160)
+		idx := 0
+	align:
+		for L := 0; L <= 40; L++ {
+			for class := 0; class < 5; class++ {
+				idx++
+				if !cfg.Mine(idx) {
+					continue
+				}
+				for _, sp := range specials {
+					for T := 0; T <= 12; T += 1 + T/4 {
+						for _, cx := range ctxs {
+							buf = append(buf[:0], cx[0]...)
+							run := func(c byte, n int) {
+								for i := 0; i < n; i++ {
+									buf = append(buf, c)
+								}
+							}
+							switch class {
+							case 0: // string content run, special, tail, closing quote
+								buf = append(buf, '"')
+								run('a', L)
+								buf = append(buf, sp...)
+								run('b', T)
+								buf = append(buf, '"')
+							case 1: // integer digits
+								buf = append(buf, '1')
+								run('7', L)
+								buf = append(buf, sp...)
+								run('3', T)
+							case 2: // fraction digits
+								buf = append(buf, "0."...)
+								run('5', L+1)
+								buf = append(buf, sp...)
+								run('9', T)
+							case 3: // exponent digits
+								buf = append(buf, "1e"...)
+								run('0', L)
+								buf = append(buf, '1')
+								buf = append(buf, sp...)
+								run('2', T)
+							default: // whitespace run before a value, special byte inside it
+								run(' ', L)
+								buf = append(buf, sp...)
+								run('\n', T)
+								buf = append(buf, "true"...)
+							}
+							buf = append(buf, cx[1]...)
+							if err := call("alignment", buf); err != nil {
+								report("alignment", buf, err)
+								break align
+							}
+						}
+					}
 				}
 			}
 		}
